@@ -125,6 +125,36 @@ Definition conv_row (b : Z) : json :=
         ("eq1", JBool (f64_eq f f64_one)); ("eq0", JBool (f64_eq f f64_zero));
         ("rt", JNum (f64_bits f))].
 
+Definition loc_name (l : loc) : string :=
+  match l with
+  | LNestedBlocks => "nested-block" | LStmtPtrs => "statement-pointer" | LCallArgs => "call-arguments"
+  | LOverrides => "overrides" | LOverrideInitPtr => "override-init" | LOverrideIdPtr => "override-id" | LGlobalExprs => "global-expressions"
+  | LConstants => "constants" | LGlobalVars => "global-variables" | LTypes => "types" | LFunctions => "functions"
+  | LFnExprs => "fn-expressions" | LFnExprTypes => "fn-expression-types" | LFnLocalVars => "fn-local-vars"
+  | LFnLocalInitPtr => "fn-local-init" | LFnNamedExprs => "fn-named-expressions" | LFnBodyTop => "fn-body"
+  end.
+
+Definition dec_value (j : json) : option value := option_map value_of_glit (dec_glit j).
+(* [0, bop, a, b] | [1, uop, a] with a, b = [ty, bits] *)
+Definition optest (j : json) : json :=
+  match j with
+  | JArr [JNum 0; JNum o; a; b] =>
+      match dec_bop o, dec_value a, dec_value b with
+      | Some o', Some a', Some b' =>
+          JObj [("spec", enc_res enc_value (spec_binop o' a' b'));
+                ("model", enc_value (model_binop o' (result_ty o' (type_of a')) a' b'))]
+      | _, _, _ => JNull
+      end
+  | JArr [JNum 1; JNum o; a] =>
+      match dec_uop o, dec_value a with
+      | Some o', Some a' =>
+          JObj [("spec", enc_res enc_value (spec_unop o' a'));
+                ("model", enc_value (model_unop o' (type_of a') a'))]
+      | _, _ => JNull
+      end
+  | _ => JNull
+  end.
+
 Definition list_of (k : string) (j : json) : list json := match field_arr k j with Some l => l | None => [] end.
 
 Definition entry (j : json) : json :=
@@ -142,7 +172,7 @@ Definition entry (j : json) : json :=
             match dec_ty t, dec_expr e with
             | Some t', Some e' =>
                 JObj [("lowered", enc_opt enc_gexpr (lower_init e'));
-                      ("model", enc_opt (fun ge => enc_glit (process_global rvals t' ge)) (lower_init e'));
+                      ("model", enc_opt (fun ge => enc_glit (process_global lits t' ge)) (lower_init e'));
                       ("spec", enc_res enc_value (subst_expr vals (Some t') e'))]
             | _, _ => JNull
             end
@@ -168,12 +198,13 @@ Definition entry (j : json) : json :=
                                    | [] => []
                                    | d :: ds' => let r := spec_one env m d in
                                                  enc_res enc_value r ::
-                                                 match r with Ok v => go (env ++ [v]) ds' | Err _ => [] end
+                                                 match r with Ok v => go ((env ++ [v])%list) ds' | Err _ => [] end
                                    end) [] ds));
             ("globals", JArr (map gl_model (list_of "globals" j)));
             ("wg", JArr (map wg_model (list_of "wg" j)));
             ("fn", JArr (map fn_model (list_of "fn" j)));
-            ("leaked", JNum (Z.of_nat (List.length leaked)));
+            ("leaked", jstrs (map loc_name leaked));
+            ("optest", JArr (map optest (list_of "optest" j)));
             ("conv", JArr (map (fun b => match b with JNum z => conv_row z | _ => JNull end) (list_of "conv" j)))]
   | _, _ => JObj [("error", JStr "cannot decode input")]
   end.
